@@ -1542,6 +1542,93 @@ impl RawUniverse for EpDiscover {
     }
 }
 
+/// Double-pin universe (no check): the mover's king on a few squares; on each of TWO different rays
+/// from the king a piece of the mover (Q R B N, or P where a pawn may stand) at every distance,
+/// pinned by an enemy R|B (by line type) or Q at every distance behind it — every pair of rays,
+/// every pair of kinds.
+pub struct TwoPins {
+    pub kings: Vec<Sq>,
+    pub kinds: Vec<Kind>,
+}
+impl RawUniverse for TwoPins {
+    fn name(&self) -> String {
+        format!("S-2PINS(kings={},kinds={})", self.kings.len(), self.kinds.len())
+    }
+    fn bounds(&self) -> Value {
+        json!({"mover_king_squares": self.kings, "mover_colours": 2, "ray_pairs": 28, "pinned": format!("{:?} of the mover at every distance, on both rays", self.kinds), "pinner": "enemy R|B (by line type) or Q at every distance behind", "enemy_king": "first free far square off both rays"})
+    }
+    fn parts(&self) -> usize {
+        self.kings.len() * 2 * 28
+    }
+    fn part(&self, i: usize, f: &mut dyn FnMut(Pos)) {
+        let c = Col::ALL[i % 2];
+        let pair = (i / 2) % 28;
+        let k = self.kings[i / 56];
+        let them = c.other();
+        // the pair-th pair of directions
+        let mut n = 0;
+        let mut dirs = (DIRS8[0], DIRS8[1]);
+        'outer: for a in 0..8 {
+            for b2 in a + 1..8 {
+                if n == pair {
+                    dirs = (DIRS8[a], DIRS8[b2]);
+                    break 'outer;
+                }
+                n += 1;
+            }
+        }
+        let ray = |d: (i32, i32)| -> Vec<Sq> {
+            let mut v = Vec::new();
+            let mut cur = k;
+            while let Some(s) = refmodel::step(cur, d.0, d.1) {
+                v.push(s);
+                cur = s;
+            }
+            v
+        };
+        let (r1, r2) = (ray(dirs.0), ray(dirs.1));
+        // (pinned square, pinned kind, pinner square, pinner kind) on one ray
+        let options = |r: &Vec<Sq>, d: (i32, i32)| -> Vec<(Sq, Kind, Sq, Kind)> {
+            let ortho = d.0 == 0 || d.1 == 0;
+            let mut out = Vec::new();
+            for (pi, &ps) in r.iter().enumerate() {
+                for &ss in &r[pi + 1..] {
+                    for sk in [if ortho { Kind::R } else { Kind::B }, Kind::Q] {
+                        for &pk in &self.kinds {
+                            if pk == Kind::P && (refmodel::rank_of(ps) == 0 || refmodel::rank_of(ps) == 7) {
+                                continue;
+                            }
+                            out.push((ps, pk, ss, sk));
+                        }
+                    }
+                }
+            }
+            out
+        };
+        let (o1, o2) = (options(&r1, dirs.0), options(&r2, dirs.1));
+        let ek = [63u8, 56, 7, 0, 62, 57, 6, 1, 55, 8].into_iter().find(|&e| {
+            !r1.contains(&e) && !r2.contains(&e) && ((refmodel::file_of(e) as i32 - refmodel::file_of(k) as i32).abs() > 1 || (refmodel::rank_of(e) as i32 - refmodel::rank_of(k) as i32).abs() > 1)
+        });
+        let ek = match ek {
+            Some(e) => e,
+            None => return,
+        };
+        for a in &o1 {
+            for b2 in &o2 {
+                let mut p = Pos::empty();
+                p.stm = c;
+                put(&mut p, k, Kind::K, c);
+                put(&mut p, ek, Kind::K, them);
+                put(&mut p, a.0, a.1, c);
+                put(&mut p, a.2, a.3, them);
+                put(&mut p, b2.0, b2.1, c);
+                put(&mut p, b2.2, b2.3, them);
+                f(p);
+            }
+        }
+    }
+}
+
 /// Battery universe: the side NOT to move has its king on a few squares; the mover owns FIVE
 /// rook-movers (or five bishop-movers) standing on that king's lines — every 5-subset of the
 /// squares of those lines at distance >= 2 — each line screened by one piece next to the king (an
